@@ -7,17 +7,24 @@
 (*                      refusal anywhere, Reader.Next only rejects length 0  *)
 (*                      and computes length-8 in uint16),                    *)
 (*   Impl = "intended"  the writer refuses what the format cannot hold and   *)
-(*                      the reader rejects length fields below 8.            *)
+(*                      the reader rejects length fields below 8,            *)
+(*   Impl = "current"   pion after c5e853e: Packet.Marshal refuses payloads   *)
+(*                      over 65527 bytes and offsets outside 0..2^32-1 ms,   *)
+(*                      Reader.Next rejects length fields below 8;           *)
+(*                      Header.Marshal / NewWriter are unchanged (a non-IPv4 *)
+(*                      source and a start time outside 32-bit seconds are   *)
+(*                      still written).  "asis" stays as the record of the   *)
+(*                      pinned code and of the counterexamples TLC finds.    *)
 (* TLC checks on the bounded boundary domain that the format is a bijection  *)
 (* on representable values (Decode(Encode(x)) = x), that the intended writer *)
 (* writes exactly Encode(x), refuses iff unrepresentable, that reading back  *)
 (* returns what was written, and that short length fields are rejected; on   *)
 (* the as-is variant it exhibits the counterexamples.  The terminal states   *)
-(* of the as-is run are the vectors replayed into pion, together with what   *)
+(* of the "current" run are the vectors replayed into pion, with what         *)
 (* the transcription predicts (compared as model drift, never as a verdict). *)
 EXTENDS RtpDumpOps, Randomization
 
-CONSTANTS Impl,      \* "asis" | "intended"
+CONSTANTS Impl,      \* "asis" | "current" | "intended"
           Space      \* which set of input vectors: "quick" | "thorough" | "replayT" | "writer" | "header" | "reader"
 
 VARIABLES vec, phase, file, wi, herr, perrs, open, rd, out, last
@@ -129,10 +136,10 @@ NewWriter ==
 WritePacket ==
   /\ phase = "writing" /\ wi < NP
   /\ LET p == vec.pkts[wi + 1]
-         refuse == Impl = "intended" /\ PktUnrepresentable(p) IN
+         refuse == Impl \in {"intended", "current"} /\ PktUnrepresentable(p) IN
      /\ perrs' = Append(perrs, refuse)
      /\ file' = IF refuse THEN file
-                ELSE [file EXCEPT !.recs = Append(@, IF Impl = "intended" THEN IntendedRec(p) ELSE AsIsRec(p))]
+                ELSE [file EXCEPT !.recs = Append(@, IF Impl = "asis" THEN AsIsRec(p) ELSE IntendedRec(p))]
      /\ last' = [op |-> "WritePacket", i |-> wi + 1, refused |-> refuse]
   /\ wi' = wi + 1
   /\ UNCHANGED <<vec, phase, herr, open, rd, out>>
@@ -176,7 +183,7 @@ Next1 ==
      THEN out' = Append(out, Eof) /\ phase' = "done" /\ rd' = rd
      ELSE LET r == file.recs[rd]
               L == RecLen(r)
-              reject == IF Impl = "intended" THEN L < RecHdrLen ELSE L = 0
+              reject == IF Impl = "asis" THEN L = 0 ELSE L < RecHdrLen
               need == IF L >= RecHdrLen THEN L - RecHdrLen ELSE L - RecHdrLen + B16
               avail == r.n + Rest(rd)
               stop(o) == out' = Append(out, o) /\ phase' = "done" /\ rd' = rd
